@@ -645,12 +645,15 @@ AwayFromEnd(p, a, b, tol4, atStart, atEnd) ==
   LET dx == b[1] - a[1] dy == b[2] - a[2] t == Dot(p[1] - a[1], p[2] - a[2], dx, dy) l == LenUB(dx, dy) IN
   /\ atStart => 4 * t >= tol4 * l
   /\ atEnd => 4 * (Dot(dx, dy, dx, dy) - t) >= tol4 * l
-InStrips(e, p, r4) ==
+\* side = 0: either side of the segment (strokes); side = 1 / -1: only points strictly left / right of the
+\* directed segment (polygons: the offset construction only builds the strip on the side away from the region)
+InStrips(e, p, r4, side) ==
   r4 > 0 /\ \E k \in 1..Len(e.paths) :
      LET q == Src(e)[k] IN
      \E i \in 1..LastEdge(e, q) :
         /\ SureStrip(p, q[i], Nxt(q, i), r4)
         /\ AwayFromEnd(p, q[i], Nxt(q, i), Tol4(e), TRUE, TRUE)
+        /\ side # 0 => Sgn(Orient(q[i], Nxt(q, i), p)) = side
 SureNearSrc(e, p, r4) ==
   r4 > 0 /\ \E k \in 1..Len(e.paths) :
      LET q == Src(e)[k] IN
@@ -702,11 +705,12 @@ InflateRegionOK(e) ==
     /\ CanonicalAt(e.sol, rev, p)
     /\ IF grow
        THEN /\ (InSrc(p) /\ FarClosed(p, e.paths, Band4)) => In(e.sol, p)
-            /\ InStrips(e, p, ad - tol4) => In(e.sol, p)
+            \* (a valid polygon set of orientation g has its region on the left (g = 1) / right (g = -1) of every edge)
+            /\ InStrips(e, p, ad - tol4, IF polygon THEN (IF rev THEN 1 ELSE -1) ELSE 0) => In(e.sol, p)
             /\ (e.jt = 3 /\ polygon) => (SureNearSrc(e, p, ad - tol4) => In(e.sol, p))
             /\ (In(e.sol, p) /\ ~InSrc(p)) => NearSrc(e, p, outer4)
        ELSE /\ (~InSrc(p) /\ FarClosed(p, e.paths, Band4)) => ~In(e.sol, p)
-            /\ InStrips(e, p, ad - tol4) => ~In(e.sol, p)
+            /\ InStrips(e, p, ad - tol4, IF rev THEN -1 ELSE 1) => ~In(e.sol, p)
             /\ e.jt = 3 => (SureNearSrc(e, p, ad - tol4) => ~In(e.sol, p))
             /\ (~In(e.sol, p) /\ InSrc(p)) => NearSrc(e, p, outer4)
     \* open-path specifics (C10)
